@@ -17,99 +17,54 @@ type HMACKey = MerkleHash;
 //@ end
 //@ extract mdb_shard/src/file_structs.rs struct FileDataSequenceHeader
 //@ end
+//@ extract mdb_shard/src/file_structs.rs struct FileDataSequenceEntry
+//@ end
+//@ extract mdb_shard/src/file_structs.rs struct FileVerificationEntry
+//@ end
+//@ extract mdb_shard/src/file_structs.rs struct FileMetadataExt
+//@ end
 //@ extract mdb_shard/src/cas_structs.rs struct CASChunkSequenceHeader
 //@ end
-//@ extract mdb_shard/src/shard_format.rs struct MDBShardFileHeader
+//@ extract mdb_shard/src/cas_structs.rs struct CASChunkSequenceEntry
 //@ end
 //@ extract mdb_shard/src/shard_format.rs struct MDBShardFileFooter
 //@ end
 //@ extract mdb_shard/src/shard_format.rs struct MDBShardInfo
 //@ end
+//@ extract mdb_shard/src/file_structs.rs const MDB_DEFAULT_FILE_FLAG
+//@ end
+//@ extract mdb_shard/src/file_structs.rs const MDB_FILE_FLAG_WITH_VERIFICATION
+//@ end
+//@ extract mdb_shard/src/file_structs.rs const MDB_FILE_FLAG_WITH_METADATA_EXT
+//@ end
 //@ include prelude/setops_actions.rs
-
-pub struct MDBShardError;
-pub type Result<T> = std::result::Result<T, MDBShardError>;
+// the reader / writer stubs and the merge specification are those of U-SETOPSTREAM: a reader HOLDS the header lists of its two
+// info sections (what U-SHSCAN's scanners return — a function of the section bytes, not of any footer count field), the writer
+// records the block headers written
+//@ include prelude/setopstream_io.rs
+//@ include prelude/setops_merge.rs
 impl Clone for MDBShardInfo {
     #[verifier::external_body]
     fn clone(&self) -> (r: MDBShardInfo) ensures r == *self { unimplemented!() }
 }
 
-// ================= what a shard HOLDS: the header lists of its two info sections, each up to its bookend ============
-// (this is what the scanners of U-SHSCAN return; it is a function of the section bytes, not of any footer count field)
-struct ShardView { files: Seq<FileDataSequenceHeader>, cas: Seq<CASChunkSequenceHeader> }
-// reader positioned on a serialized shard / writer that received a serialized shard
-struct VxR { view: Ghost<ShardView>, info: Ghost<MDBShardInfo> }   // `info`: the header+footer stored in that shard (what load_from_reader returns)
-struct VxW { shard: Ghost<Option<ShardView>> }
-impl VxR {
-    // std::io::Seek::rewind
-    #[verifier::external_body]
-    fn rewind(&mut self) -> (r: Result<()>) ensures final(self).view@ == old(self).view@, final(self).info@ == old(self).info@ { unimplemented!() }
-}
-// std::io::copy from a rewound shard reader: the writer receives that very shard
-#[verifier::external_body]
-fn vx_io_copy(r: &mut VxR, w: &mut VxW) -> (res: Result<u64>)
-    ensures final(r).view@ == old(r).view@, res is Ok ==> final(w).shard@ == Some(old(r).view@)
-{ unimplemented!() }
-
-// ---- the specification of union / difference over section views: the ordered two-way merge driven by U-SETOPS' tables --
-spec fn hd<T>(s: Seq<T>) -> Option<T> { if s.len() > 0 { Some(s[0]) } else { None } }
-spec fn cas_key(h: Option<CASChunkSequenceHeader>) -> Option<MerkleHash> { match h { Some(x) => Some(x.cas_hash), None => None } }
-spec fn emit<T>(a: NextAction, x: Option<T>) -> Seq<T> { if a is CopyToOut && x is Some { seq![x->0] } else { Seq::empty() } }
-spec fn rest<T>(a: NextAction, s: Seq<T>) -> Seq<T> { if (a is CopyToOut || a is SkipOver) && s.len() > 0 { s.drop_first() } else { s } }
-spec fn merge_cas(a: Seq<CASChunkSequenceHeader>, b: Seq<CASChunkSequenceHeader>, op: MDBSetOperation) -> Seq<CASChunkSequenceHeader>
-    decreases a.len() + b.len()
-{
-    match key_table(cas_key(hd(a)), cas_key(hd(b)), op) {
-        None => Seq::empty(),
-        Some((x, y)) =>
-            // (the guard is always true: lemma_merge_progress; it only makes the definition's termination evident)
-            if rest(x, a).len() + rest(y, b).len() < a.len() + b.len() { emit(x, hd(a)) + emit(y, hd(b)) + merge_cas(rest(x, a), rest(y, b), op) } else { Seq::empty() },
-    }
-}
-// the merged header of two records of the same file: the first one's hash and entry count, union of the defined flags
-spec fn merged_header(a: FileDataSequenceHeader, b: FileDataSequenceHeader) -> FileDataSequenceHeader {
-    FileDataSequenceHeader { file_flags: (a.file_flags | b.file_flags) & 0xC000_0000u32, _unused: 0, ..a }
-}
-spec fn merge_files(a: Seq<FileDataSequenceHeader>, b: Seq<FileDataSequenceHeader>, op: MDBSetOperation) -> Seq<FileDataSequenceHeader>
-    decreases a.len() + b.len()
-{
-    match file_table(hd(a), hd(b), op) {
-        None => Seq::empty(),
-        Some((x, y)) =>
-            if x is Merge {
-                if a.len() > 0 && b.len() > 0 { seq![merged_header(a[0], b[0])] + merge_files(a.drop_first(), b.drop_first(), op) } else { Seq::empty() }
-            } else if rest(x, a).len() + rest(y, b).len() < a.len() + b.len() {
-                emit(x, hd(a)) + emit(y, hd(b)) + merge_files(rest(x, a), rest(y, b), op)
-            } else { Seq::empty() },
-    }
-}
-spec fn set_op_spec(v1: ShardView, v2: ShardView, op: MDBSetOperation) -> ShardView {
-    ShardView { files: merge_files(v1.files, v2.files, op), cas: merge_cas(v1.cas, v2.cas, op) }
-}
-// the guards above never fire: whenever the table answers, some side with a record advances
-proof fn lemma_merge_progress(a: Seq<CASChunkSequenceHeader>, b: Seq<CASChunkSequenceHeader>, op: MDBSetOperation)
-    ensures key_table(cas_key(hd(a)), cas_key(hd(b)), op) matches Some((x, y)) ==> rest(x, a).len() + rest(y, b).len() < a.len() + b.len(),
-{
-    if a.len() > 0 && b.len() > 0 { lemma_hash_order_total(a[0].cas_hash, b[0].cas_hash); }
-}
 // sanity of the specification (what the C10c seed contradicts): the union with a shard that HOLDS records is not the first operand
 proof fn lemma_union_keeps_second(b: Seq<CASChunkSequenceHeader>)
     requires b.len() > 0,
     ensures merge_cas(Seq::empty(), b, MDBSetOperation::Union).len() > 0,
 {
     let a = Seq::<CASChunkSequenceHeader>::empty();
-    lemma_merge_progress(a, b, MDBSetOperation::Union);
+    lemma_merge_cas_step(a, b, MDBSetOperation::Union);
     assert(key_table(cas_key(hd(a)), cas_key(hd(b)), MDBSetOperation::Union) == Some((NextAction::Nothing, NextAction::CopyToOut)));
     assert(emit(NextAction::CopyToOut, hd(b)).len() == 1);
 }
 
-// `set_operation` (U-SETOPS: decisions, U-SETOPSTREAM: byte accounting).  ASSUMED here: the streaming loop realises the merge
-// specification on the sections of both inputs (its content half is not under proof in any unit)
+// `set_operation`: the contract below is the one U-SETOPSTREAM PROVES for the real streaming function (same predicates
+// `setop_pre` / `setop_content` from the shared preludes) — here it is the callee contract
 #[verifier::external_body]
-fn set_operation(s: [&MDBShardInfo; 2], r: [&mut VxR; 2], out: &mut VxW, op: MDBSetOperation) -> (res: Result<MDBShardInfo>)
-    // it seeks with the section offsets of s[i] in reader r[i]: each info must be the one of its reader's shard
-    requires *s[0] == old(r[0]).info@, *s[1] == old(r[1]).info@,
-    ensures res is Ok ==> final(out).shard@ == Some(set_op_spec(old(r[0]).view@, old(r[1]).view@, op))
+fn set_operation(s: [&MDBShardInfo; 2], r: [&mut VxReader; 2], out: &mut VxWriter, op: MDBSetOperation) -> (res: Result<MDBShardInfo>)
+    requires setop_pre(*s[0], *old(r[0]), *s[1], *old(r[1])),
+    ensures res is Ok ==> setop_content(old(r[0]).files@, old(r[1]).files@, old(r[0]).cas@, old(r[1]).cas@, op, old(out).fhdrs@, final(out).fhdrs@, old(out).chdrs@, final(out).chdrs@),
 { unimplemented!() }
 
 impl MDBShardInfo {
@@ -129,27 +84,27 @@ impl MDBShardInfo {
 //@ extract mdb_shard/src/set_operations.rs fn shard_set_union
 //@ ret res
 //@ subst `<R: Read + Seek, W: Write>` => `` :: R11 reader/writer stubs instead of the generic parameters
-//@ subst `r1: &mut R` => `r1: &mut VxR` :: R11 reader stub with ghost section views
-//@ subst `r2: &mut R` => `r2: &mut VxR` :: R11 reader stub with ghost section views
-//@ subst `out: &mut W` => `out: &mut VxW` :: R11 writer stub with ghost view of the shard written
+//@ subst `r1: &mut R` => `r1: &mut VxReader` :: R11 reader stub with ghost section views
+//@ subst `r2: &mut R` => `r2: &mut VxReader` :: R11 reader stub with ghost section views
+//@ subst `out: &mut W` => `out: &mut VxWriter` :: R11 writer stub with ghost view of the shard written
 //@ optsubst `std::io::copy` => `vx_io_copy` :: R11 std::io::copy between the stubs
 //@ contract
-    requires *s1 == old(r1).info@, *s2 == old(r2).info@,
+    requires setop_pre(*s1, *old(r1), *s2, *old(r2)),
     ensures
         // the output holds exactly the union of what the two operands HOLD (their sections), whatever their footers' count fields say
-        res is Ok ==> /*@C10*/ final(out).shard@ == Some(set_op_spec(old(r1).view@, old(r2).view@, MDBSetOperation::Union)),
+        res is Ok ==> /*@C10*/ setop_content(old(r1).files@, old(r2).files@, old(r1).cas@, old(r2).cas@, MDBSetOperation::Union, old(out).fhdrs@, final(out).fhdrs@, old(out).chdrs@, final(out).chdrs@),
 //@ end
 //@ extract mdb_shard/src/set_operations.rs fn shard_set_difference
 //@ ret res
 //@ subst `<R: Read + Seek, W: Write>` => `` :: R11 reader/writer stubs instead of the generic parameters
-//@ subst `r1: &mut R` => `r1: &mut VxR` :: R11 reader stub with ghost section views
-//@ subst `r2: &mut R` => `r2: &mut VxR` :: R11 reader stub with ghost section views
-//@ subst `out: &mut W` => `out: &mut VxW` :: R11 writer stub with ghost view of the shard written
+//@ subst `r1: &mut R` => `r1: &mut VxReader` :: R11 reader stub with ghost section views
+//@ subst `r2: &mut R` => `r2: &mut VxReader` :: R11 reader stub with ghost section views
+//@ subst `out: &mut W` => `out: &mut VxWriter` :: R11 writer stub with ghost view of the shard written
 //@ optsubst `std::io::copy` => `vx_io_copy` :: R11 std::io::copy between the stubs
 //@ contract
-    requires *s1 == old(r1).info@, *s2 == old(r2).info@,
+    requires setop_pre(*s1, *old(r1), *s2, *old(r2)),
     ensures
-        res is Ok ==> /*@C10*/ final(out).shard@ == Some(set_op_spec(old(r1).view@, old(r2).view@, MDBSetOperation::Difference)),
+        res is Ok ==> /*@C10*/ setop_content(old(r1).files@, old(r2).files@, old(r1).cas@, old(r2).cas@, MDBSetOperation::Difference, old(out).fhdrs@, final(out).fhdrs@, old(out).chdrs@, final(out).chdrs@),
 //@ end
 
 // ---- the file-level wrappers: `shard_file_op` (temp file, HashedWrite, rename around the same `set_operation` call) is file-system
